@@ -467,6 +467,102 @@ func checkRun(c *lib.Ctx, s *spec, w *world, p any, op string) {
 		}
 	}
 	c.Count("oracle:bound-checked-runs")
+	checkConsensusRounds(c, s, w, op)
+}
+
+// consensus returns (v, true) when every source of the side answers v without error strictly
+// before the timeout: the side's measured offset is then v whatever the slice held before
+// (for peers, with at least 3 of them, in spite of the local clock's 0).
+func consensus(s *spec, acts []act) (int64, bool) {
+	if len(acts) == 0 || s.timeout <= 0 {
+		return 0, false
+	}
+	for _, a := range acts {
+		if (a.kind != 'o' && a.kind != 'c') || a.delay >= s.timeout || a.off != acts[0].off {
+			return 0, false
+		}
+	}
+	return acts[0].off, true
+}
+
+func absI(x int64) *big.Int { b := big.NewInt(x); return b.Abs(b) }
+
+// bounded is the property's "bounded value" for caps below 2^53 (where it is exact):
+// v itself if |v| <= cap, else cap towards zero to an integer, with v's sign.
+func bounded(v int64, cap float64) int64 {
+	fl := int64(math.Floor(cap))
+	if absI(v).Cmp(big.NewInt(fl)) <= 0 {
+		return v
+	}
+	if v < 0 {
+		return -fl
+	}
+	return fl
+}
+
+// checkConsensusRounds: the clauses "a peer offset within the cutoff contributes nothing" and
+// "when both contribute the correction is the midpoint of the two bounded values", evaluated on
+// rounds where the measured offsets are known without recomputing the fault-tolerant midpoint.
+func checkConsensusRounds(c *lib.Ctx, s *spec, w *world, op string) {
+	mr, mp := s.ri*float64(s.drift), s.pi*float64(s.drift)
+	if !(mp < 0x1p53) || len(w.corrs) != len(s.rounds) {
+		return
+	}
+	for k, rd := range s.rounds {
+		corr := w.corrs[k]
+		vr, okr := consensus(s, rd[0])
+		vp, okp := consensus(s, rd[1])
+		if s.nref != 0 && !okr {
+			continue
+		}
+		if s.npeer != 0 && (!okp || s.npeer < 3) {
+			continue
+		}
+		if s.nref == 0 && s.npeer == 0 {
+			continue
+		}
+		if s.npeer != 0 && vp == math.MinInt64 && s.cutoff == math.MaxInt64 {
+			// time.Duration.Abs saturates: |MinInt64| reads as MaxInt64, which is not beyond a
+			// cutoff of MaxInt64 although 2^63 is; the peer then contributes nothing (the
+			// conservative direction) - not a clause of the property, tied by the model only
+			c.Count("oracle:skip-minint64-at-cutoff-maxint64")
+			continue
+		}
+		within := s.npeer == 0 || absI(vp).Cmp(big.NewInt(s.cutoff)) <= 0
+		switch {
+		case within && s.nref == 0:
+			c.Count("oracle:cutoff:no-refs")
+			if corr != 0 {
+				c.Fail("C01:cutoff", "a peer offset within the cutoff contributed to the correction", []string{op},
+					map[string]any{"round": k, "peer": vp, "cutoff": s.cutoff, "corr": corr})
+				return
+			}
+		case within:
+			c.Count("oracle:cutoff:refs-only")
+			if corr != bounded(vr, mr) {
+				c.Fail("C01:cutoff-ref", "with the peer offset within the cutoff the correction is not the bounded reference value", []string{op},
+					map[string]any{"round": k, "ref": vr, "peer": vp, "cutoff": s.cutoff, "corr": corr, "want": bounded(vr, mr)})
+				return
+			}
+		case s.nref == 0:
+			c.Count("oracle:peer-only")
+			if corr != bounded(vp, mp) {
+				c.Fail("C01:peer-only", "the correction is not the bounded peer value", []string{op},
+					map[string]any{"round": k, "peer": vp, "corr": corr, "want": bounded(vp, mp)})
+				return
+			}
+		default:
+			c.Count("oracle:midpoint")
+			a, b := bounded(vr, mr), bounded(vp, mp) // |a|,|b| < 2^53: no overflow below
+			d := 2*corr - (a + b)
+			lo, hi := min(a, b), max(a, b)
+			if d < -1 || d > 1 || corr < lo || corr > hi {
+				c.Fail("C01:midpoint", "the correction is not the midpoint of the two bounded values", []string{op},
+					map[string]any{"round": k, "ref": vr, "peer": vp, "a": a, "b": b, "corr": corr})
+				return
+			}
+		}
+	}
 }
 
 // do runs one generated spec through the correspondence and the oracle.
@@ -871,8 +967,8 @@ func gen(c *lib.Ctx) {
 		mk(func(s *spec) { s.ri, s.pi = 1.25, inf })
 		mk(func(s *spec) { s.ri, s.pi = up(1), up(2) })
 		mk(func(s *spec) { s.ri, s.pi = up(1), up(up(2)) })
-		mk(func(s *spec) { s.ri, s.pi = 0x1p53, 0x1p53 + 2 })
-		mk(func(s *spec) { s.ri, s.pi = 0x1p53, 0x1p53 + 4 })
+		mk(func(s *spec) { s.ri, s.pi = 0x1p53, 0x1p53+2 })
+		mk(func(s *spec) { s.ri, s.pi = 0x1p53, 0x1p53+4 })
 		mk(func(s *spec) { s.ri, s.pi = 1e300, math.MaxFloat64; s.drift = math.MaxInt64 }) // cap overflows to +Inf
 		mk(func(s *spec) { s.ri, s.pi = 1e290, 1e291; s.drift = 1 << 62 })
 		for _, v := range []int64{0, -1, 1, 2, 3, math.MinInt64, math.MaxInt64, math.MaxInt64 - 1} {
@@ -986,7 +1082,7 @@ func gen(c *lib.Ctx) {
 	// ---- histories
 	c.Comment("histories")
 	hr := r.Fork("hist")
-	for i := 0; i < c.Scale(300, 5000); i++ {
+	for i := 0; i < c.Scale(600, 20000); i++ {
 		s := validCfg(hr)
 		s.nref, s.npeer = int(hr.Range(0, 9)), int(hr.Range(0, 9))
 		if hr.Chance(10) {
